@@ -15,7 +15,7 @@ META = dict(
     level='proof',
     technique='Coq proof (time-clock state machine: session matching, exact elapsed seconds, telescoping day-break pieces, error cases, refinement to a per-account matching specification) + differential correspondence of the extracted model against ledger',
     level_text='Theorems in coq/Properties/Properties_C20.v state, for all event sequences and all timestamps, that the model of time_log_t (clock_in, clock_out, clock_out_from_timelog, the --day-break loop, close) posts for each closed session exactly t_out - t_in seconds on the check-in day to the check-in account; that under --day-break the pieces are the non-empty intersections of the session with the calendar days it touches (contiguous, boundaries at midnights, consecutive dates, telescoping to t_out - t_in, no empty piece for a check-out at midnight); that an account total is the sum of its sessions with or without --day-break; and that a line fails exactly in the three stated cases. The model is tied to the code by running thousands of generated time-clock files (1-60 events, 1-4 accounts, midnights, month ends, leap days, interleaved sessions, every malformed kind) through freshly built ledger and the extracted model and comparing every register row, error line, error class and exit status.',
-    level_note='Trusted: Coq kernel; extraction + OCaml driver and the python harness for the correspondence; boost ptime/gregorian arithmetic is modelled as integer seconds with day = t div 86400 (validated against python datetime by the correspondence); the fixed-column reading of i/o lines (textual.cc:467-523) is glue re-implemented in the harness, including the bytes it reads past the end of a check-out line that names no account.',
+    level_note='Trusted: Coq kernel; extraction + OCaml driver and the python harness for the correspondence; boost ptime/gregorian arithmetic is modelled as integer seconds with day = t div 86400 (validated against python datetime by the correspondence); the fixed-column reading of i/o lines (textual.cc:467-523) is glue: a line that ends after the timestamp is a check-in to the account named "" or a check-out with no account (NULL).',
     design_ref='DESIGN.md section 7 C20',
     assumptions=['timestamps are well-formed `YYYY/MM/DD HH:MM:SS` between 1990 and 2060',
                  'account names and descriptions are plain words (no double spaces, tabs, `;` or `|`)',
@@ -67,7 +67,7 @@ def gap(rng, t):
 
 def gen_case(rng, malformed=None):
     """-> dict(events=[...], now=seconds).  An event: kind i/o, t, cap, acct (None = the line names
-    no account), desc, clean (a 22-character comment line is written before it)."""
+    no account: a check-in then goes to the account named "", a check-out passes NULL), desc."""
     nacc = rng.choice([1, 1, 2, 2, 3, 4])
     accts = rng.sample(ACCOUNTS, nacc)
     n = rng.choice([1, 2, 2, 3, 4, 5, 6, 8, 10, 12, 16, 20, 30, 45, 60])
@@ -83,8 +83,8 @@ def gen_case(rng, malformed=None):
     events = []
     opened = []       # (acct, t_in) in check-in order, as the generator intends it
 
-    def ev(kind, t, acct, desc='', clean=False):
-        events.append(dict(kind=kind, t=t, cap=rng.random() < 0.2, acct=acct, desc=desc, clean=clean))
+    def ev(kind, t, acct, desc=''):
+        events.append(dict(kind=kind, t=t, cap=rng.random() < 0.2, acct=acct, desc=desc))
 
     for k in range(n):
         t += gap(rng, t)
@@ -92,43 +92,47 @@ def gen_case(rng, malformed=None):
         free = [a for a in accts if a not in names]
         bad = rng.random() < pmal
         if bad:
-            kinds = ['double', 'out-none', 'earlier', 'mismatch', 'anon-multi-clean', 'anon-multi-stale']
+            kinds = ['double', 'out-none', 'earlier', 'mismatch', 'anon-multi']
             kind = malformed if (malformed in kinds and rng.random() < 0.7) else rng.choice(kinds)
             if kind == 'double' and opened:
-                ev('i', t, rng.choice(names), rng.choice(PAYEES))
+                a = rng.choice(names)
+                ev('i', t, a, rng.choice(PAYEES) if a is not None else '')
                 continue
             if kind == 'out-none' and not opened:
-                ev('o', t, rng.choice([None, rng.choice(accts)]), clean=rng.random() < 0.5)
+                ev('o', t, rng.choice([None, rng.choice(accts)]))
                 continue
             if kind == 'earlier' and opened:
                 a, tin = rng.choice(opened)
                 back = rng.choice([1, 1, 2, 60, 3600, DAY, DAY + 1])
-                anon = len(opened) == 1 and rng.random() < 0.5
+                anon = a is None or (len(opened) == 1 and rng.random() < 0.5)
                 ev('o', tin - back, None if anon else a)
+                if anon and len(opened) > 1:
+                    continue                       # fails for want of an account; nothing is dropped
                 opened.remove((a, tin))            # ledger drops the check-in although the line fails
                 continue
             if kind == 'mismatch' and opened:
-                others = [a for a in ACCOUNTS if a not in names]
+                others = [a for a in ACCOUNTS if a not in names]   # (never the account named "": a line cannot spell it)
                 ev('o', t, rng.choice(others), rng.choice(PAYEES))
                 if len(opened) == 1:
                     opened.clear()                 # F12: the only open session is closed
                 continue
-            if kind.startswith('anon-multi') and len(opened) >= 2:
-                clean = kind.endswith('clean')
-                prev = events[-1]['acct'] if events else None
-                ev('o', t, None, clean=clean)
-                if not clean and prev in names:     # the stale bytes name the previous line's account
-                    opened[:] = [(x, y) for x, y in opened if x != prev]
+            if kind == 'anon-multi' and len(opened) >= 2:
+                ev('o', t, None)                   # "requires an account": nothing is closed
                 continue
             # the chosen malformation does not apply to the current state: fall through
         want_in = (not opened) or (free and style != 'classic' and rng.random() < 0.45)
-        if want_in and free:
+        if want_in and None not in names and rng.random() < 0.04:
+            ev('i', t, None)                       # a check-in line that ends after the timestamp: account ""
+            opened.append((None, t))
+        elif want_in and free:
             a = rng.choice(free)
             ev('i', t, a, rng.choice(PAYEES))
             opened.append((a, t))
         elif opened:
             a, tin = rng.choice(opened)
-            anon = len(opened) == 1 and (style == 'classic' or (style == 'mixed' and rng.random() < 0.5))
+            if a is None and len(opened) > 1:
+                a, tin = rng.choice([x for x in opened if x[0] is not None])   # "" can only be closed when alone
+            anon = a is None or (len(opened) == 1 and (style == 'classic' or (style == 'mixed' and rng.random() < 0.5)))
             ev('o', t, None if anon else a, '' if anon else rng.choice(PAYEES + ['', '']))
             opened.remove((a, tin))
     last = max(e['t'] for e in events)
@@ -148,8 +152,8 @@ def gen_directed(rng):
     """the boundary shapes of the day-break loop and of the selection rule, written out"""
     base = secs(rng.choice(ANCHORS)) // DAY * DAY
     a, b = rng.sample(ACCOUNTS, 2)
-    E = lambda kind, t, acct, desc='', cap=False, clean=False: dict(kind=kind, t=t, cap=cap, acct=acct, desc=desc, clean=clean)
-    k = rng.randrange(10)
+    E = lambda kind, t, acct, desc='', cap=False: dict(kind=kind, t=t, cap=cap, acct=acct, desc=desc)
+    k = rng.randrange(13)
     d = rng.randrange(1, 4)
     if k == 0:    # check-out exactly at a midnight, d days later
         tin = base + rng.choice([0, 1, 3600, DAY - 1])
@@ -173,6 +177,12 @@ def gen_directed(rng):
     elif k == 8:  # second check-in to the open account; the same name one level down is another account
         evs = [E('i', base + 50, 'Work:A'), E('i', base + 60, 'Work:A:Sub'), E('i', base + 70, 'Work:A'), E('o', base + 80, 'Work:A'),
                E('o', base + 90, 'Work:A:Sub')]
+    elif k == 10:  # two open and a check-out that names no account: "requires an account", nothing is closed
+        evs = [E('i', base + 1, a), E('i', base + 2, b), E('o', base + 50, None), E('o', base + 60, a), E('o', base + 70, None)]
+    elif k == 11:  # a check-in line without account opens the account named ""; alone it is closed by a bare check-out
+        evs = [E('i', base + 1, None), E('o', base + DAY + 1, None), E('i', base + DAY + 5, None), E('i', base + DAY + 6, None)][:rng.choice([2, 3, 4])]
+    elif k == 12:  # the account "" next to a named one: it can only be closed once it is alone
+        evs = [E('i', base + 1, None), E('i', base + 2, a, 'p'), E('o', base + 3, None), E('o', base + 4, a), E('o', base + DAY, None)]
     else:         # three open, closed from the middle; the last one by a line without account
         c = [x for x in ACCOUNTS if x not in (a, b)][0]
         evs = [E('i', base + 1, a), E('i', base + 2, b), E('i', base + 3, c), E('o', base + DAY + 3, b), E('o', base + DAY + 4, a),
@@ -181,16 +191,11 @@ def gen_directed(rng):
     return dict(events=evs, now=now)
 
 
-# ---- rendering and the glue of textual.cc:467-523 ----------------------------------------------
-CLEAN = ';23456789012345678901X'      # 22 characters: leaves a terminator in column 22 of the line buffer
-
-
+# ---- rendering ----------------------------------------------------------------------------------
 def render(case):
     """-> (text, line number of each event)"""
     lines, at = [], []
     for e in case['events']:
-        if e['clean']:
-            lines.append(CLEAN)
         c = e['kind'].upper() if e['cap'] else e['kind']
         s = '%s %s' % (c, stamp(e['t']))
         if e['acct'] is not None:
@@ -202,61 +207,18 @@ def render(case):
     return '\n'.join(lines) + '\n', at
 
 
-def glue(text):
-    """What clock_in_directive / clock_out_directive read from each i/o line: the account name is the
-    C string at skip_ws(line + 22), cut by next_element at a tab or a double space; the description
-    is what follows.  `line` is the shared line buffer: a line shorter than 22 characters leaves the
-    bytes of earlier lines in place, and they are what gets read.  -> {line number: (acct, desc)}"""
-    buf = bytearray(8192)
-    out = {}
-
-    def skip_ws(i):
-        while buf[i] in b' \t\n':
-            i += 1
-        return i
-
-    def next_element(i):
-        while buf[i] != 0:
-            if buf[i] == 9:
-                buf[i] = 0
-                return skip_ws(i + 1)
-            if buf[i] == 32 and buf[i + 1] == 32:
-                buf[i] = 0
-                return skip_ws(i + 2)
-            i += 1
-        return None
-
-    def cstr(i):
-        j = i
-        while buf[j] != 0:
-            j += 1
-        return bytes(buf[i:j])
-
-    for ln, line in enumerate(text.split('\n')[:-1], 1):
-        raw = line.encode().rstrip()
-        buf[0:len(raw)] = raw
-        buf[len(raw)] = 0
-        if raw[:1] in (b'i', b'o', b'I', b'O') and raw[1:2] == b' ':
-            p = skip_ws(22)
-            n = next_element(p)
-            e = next_element(n) if n is not None else None
-            out[ln] = (cstr(p), cstr(n) if n is not None else b'')
-    return out
-
-
-def to_model(case, text, at):
-    """the events as the model receives them (the account of a line that names none is what the glue
-    reads); also returns glue mismatches on lines that do name an account (a harness self-check)"""
-    g = glue(text)
-    evs, slips = [], []
-    for e, ln in zip(case['events'], at):
-        acct, desc = g[ln]
-        if e['acct'] is not None and (acct != e['acct'].encode() or desc != e['desc'].encode()):
-            slips.append((ln, acct, desc))
-        if e['acct'] is not None:
-            acct, desc = e['acct'].encode(), e['desc'].encode()
-        evs.append([e['kind'], e['t'], e['cap'], acct, desc])
-    return evs, slips
+def to_model(case):
+    """the events as clock_in_directive / clock_out_directive hand them over (textual.cc:467-529): a
+    line that ends after the timestamp is a check-in to the account named "" or a check-out whose
+    account is NULL"""
+    evs = []
+    for e in case['events']:
+        if e['acct'] is None:
+            acct = b'' if e['kind'] == 'i' else 'none'
+        else:
+            acct = e['acct'].encode()
+        evs.append([e['kind'], e['t'], e['cap'], acct, e['desc'].encode()])
+    return evs
 
 
 # ---- the implementation --------------------------------------------------------------------------
@@ -354,10 +316,11 @@ def oracle(case, at, r, db):
     for e, ln in zip(case['events'], at):
         when = EPOCH + timedelta(seconds=e['t'])
         if e['kind'] == 'i':
-            if e['acct'] in opened:
+            name = e['acct'] if e['acct'] is not None else ''     # no account on the line: the account named ""
+            if name in opened:
                 first_error = (ln, 'second check-in to an open account')
                 break
-            opened[e['acct']] = (when, ln)
+            opened[name] = (when, ln)
             continue
         a = e['acct']
         if a is None:
@@ -365,7 +328,7 @@ def oracle(case, at, r, db):
                 first_error = (ln, 'check-out with no open check-in')
                 break
             if len(opened) > 1:
-                notes.append('a check-out naming no account while several accounts are open: the statement does not say which session it ends (ledger takes the account name from the bytes an earlier line left at column 22 of its line buffer, textual.cc:499)')
+                notes.append('a check-out naming no account while several accounts are open: the statement does not say which session it ends (ledger: "checking out requires an account")')
                 return viol, notes
             a = next(iter(opened))
         elif a not in opened:
@@ -493,6 +456,8 @@ def features(case, model_line):
     ev = case['events']
     if any(e['kind'] == 'o' and e['acct'] is None for e in ev):
         f.add('anon-out')
+    if any(e['kind'] == 'i' and e['acct'] is None for e in ev):
+        f.add('anon-in')
     if model_line.startswith('R'):
         rows = [x.split('|') for x in model_line[2:].split(';')] if len(model_line) > 2 else []
         f.add('rows:%s' % ('0' if not rows else '1' if len(rows) == 1 else '2-9' if len(rows) < 10 else '10+'))
@@ -524,27 +489,25 @@ def run(ctx, n_override=None):
         elif k < 0.62:
             cases.append(('v', gen_case(rng)))
         else:
-            cases.append(('m', gen_case(rng, malformed=rng.choice(['double', 'out-none', 'earlier', 'mismatch', 'anon-multi-clean', 'anon-multi-stale', 'any']))))
+            cases.append(('m', gen_case(rng, malformed=rng.choice(['double', 'out-none', 'earlier', 'mismatch', 'anon-multi', 'anon-multi', 'any']))))
     prepared = []
     model_in = []
     for i, (tag, case) in enumerate(cases):
         text, at = render(case)
-        evs, slips = to_model(case, text, at)
+        evs = to_model(case)
         for db in (0, 1):
             model_in.append(lib.sx(['case', '%s%d-%d' % (tag, i, db), db, case['now'], [list(e) for e in evs]]))
-        prepared.append((tag, case, text, at, slips))
+        prepared.append((tag, case, text, at))
     model_out = lib.run_model('C20', model_in)
     noted = {}
     hangs = 0
     shrunk = set()
-    for i, (tag, case, text, at, slips) in enumerate(prepared):
+    for i, (tag, case, text, at) in enumerate(prepared):
         if hangs >= 3:
             res.notes.append('stopped after 3 runs that did not terminate within 10 s')
             break
         path = ctx.path('tl.dat')
         open(path, 'w').write(text)
-        for s in slips:
-            res.disagreements.append(dict(name='C20/glue', case=text, impl='line %d read as %r / %r' % s, model='the written account and description'))
         for db in (0, 1):
             r = run_impl(path, case['now'], db)
             if r['status'] == 'timeout':
@@ -613,7 +576,7 @@ def replay(ctx, obj):
             m = re.match(r'([ioIO]) (\d{4}/\d\d/\d\d \d\d:\d\d:\d\d)(?: (.*?))?(?:  (.*))?$', l)
             if m:
                 evs.append(dict(kind=m.group(1).lower(), t=secs(datetime.strptime(m.group(2), '%Y/%m/%d %H:%M:%S')), cap=m.group(1).isupper(),
-                                acct=m.group(3), desc=m.group(4) or '', clean=False))
+                                acct=m.group(3), desc=m.group(4) or ''))
                 at.append(ln)
         viol, _ = oracle(dict(events=evs, now=case['now']), at, r, 1 if case.get('day_break') else 0)
         for key, desc, obs, req in viol:
